@@ -69,6 +69,8 @@ class NpMixin:
 
     def b_numpy_copy(self, args, kw, st, n):
         a = args[0]
+        if type(a).__name__ == "SData":   # np.copy(DataArray) -> a plain array holding its values
+            a = a.arr
         if not isinstance(a, SArr) or a.fixed:
             raise Unsupported("np.copy of %r" % type(a))
         cid = new_cell()
